@@ -5,6 +5,7 @@ int32_t vf_la[VF_MAXLOG];
 int vf_nlog;
 uint32_t vf_gmask;
 uint32_t vf_gcount[32];
+uint8_t vf_gv[32];
 int vf_in_prefix;
 uint32_t vf_inputs[VF_NIN];
 uint32_t vf_hookmask;
@@ -35,14 +36,30 @@ void VFN(vf_log)(vf_i32 code, vf_i32 arg) {
   vf_nlog++;
 }
 
+/* guard valuation: one variable per site, so that sites fixed by a case split stay constants for CBMC's symbolic
+ * execution (a bit extracted from a partly symbolic word would not) */
+#define VF_G1(i, e) vf_gv[i] = (uint8_t)(e);
+#define VF_G8(b, E) E(b) E(b + 1) E(b + 2) E(b + 3) E(b + 4) E(b + 5) E(b + 6) E(b + 7)
+void vf_set_guards(uint32_t m) {
+  vf_gmask = m;
+#define VF_SETG(i) VF_G1(i, (m >> (i)) & 1u)
+  VF_G8(0, VF_SETG) VF_G8(8, VF_SETG) VF_G8(16, VF_SETG) VF_G8(24, VF_SETG)
+}
+void vf_nondet_guards(uint32_t fixmask, uint32_t fixval) {
+  uint32_t n = vf_nondet(3);
+  vf_gmask = n;
+#define VF_NDG(i) VF_G1(i, ((fixmask >> (i)) & 1u) ? ((fixval >> (i)) & 1u) : ((n >> (i)) & 1u))
+  VF_G8(0, VF_NDG) VF_G8(8, VF_NDG) VF_G8(16, VF_NDG) VF_G8(24, VF_NDG)
+}
+
 vf_i32 VFN(vf_guard)(vf_i32 site) {
-  uint32_t v = (vf_gmask >> (site & 31)) & 1u;
+  uint32_t v = vf_gv[site & 31];
   VFN(vf_log)((vf_i32)(3000 + 2 * site + v), 0);
   return (vf_i32)v;
 }
 
 vf_i32 VFN(vf_guardc)(vf_i32 site) {
-  uint32_t v = (vf_gmask >> (site & 31)) & 1u;
+  uint32_t v = vf_gv[site & 31];
   VFN(vf_log)((vf_i32)(7000 + 2 * site + v), 0);
   return (vf_i32)v;
 }
